@@ -59,7 +59,9 @@ def tup(x):
 class Prop:
     pid = 'C08'
     props_file = 'Props/C08.v'
-    required_theorems = ['negotiated_is_min']
+    required_theorems = ['negotiated_is_min', 'zero_hold_disables_timers', 'zero_never_expires',
+                         'hold_deadline_follows_reception', 'expiry_only_after_silence', 'expiry_when_silent',
+                         'keepalive_every_third', 'sleep0_driver_refuted', 'as_loop_drop_refuted']
     correspondence_name = ('Model/Timers.v run_case vs daemon/src/event/mod.rs PeerSession::{apply_outputs, run_select, rx_msg, '
                            'flush_tx} + ConnArbiter::process (harness/daemon/event_hx.rs verif_timer_cases)')
     rule = ('cases = (local id/AS/hold/capabilities, expected AS, role, timed event sequence: ticks, message arrivals, FIN, close requests, '
